@@ -297,3 +297,6 @@ UNITS += [
     Unit('GenericQuantity.__pow__', (QTY, 'GenericQuantity.__pow__'), pow_unit),
     Unit('FundamentalUnits._build', (QTY, 'FundamentalUnits._build'), build_unit, replay_build),
 ]
+
+from . import standins     # noqa: E402
+STANDINS = [standins.c11_algebra]
